@@ -241,6 +241,10 @@ def run(ctx: Ctx, tier: str) -> Result:
                 res.ok("C06.TOTAL", {"op": op.kind, "at": fi.loc(op.node), "why": IGNORED[op.kind]})
                 continue
             ct = g.catching_try(op.node, fi, "Exception")
+            if ct is not None and any(g.reraises(h_) for h_ in ct[0].handlers):
+                res.fail(Finding("C06.TOTAL", fi.qname, op.node, fi.loc(op.node), "the local guard around %s on `%s` lets part of the failures through again (a handler re-raises): "
+                                 "such a value (endless recursion in __str__, huge repr) loses the snapshot, or leaves it half recorded" % (op.kind, norm(op.subject)[:50])))
+                continue
             if ct is not None:
                 res.ok("C06.TOTAL", {"op": op.kind, "on": norm(op.subject)[:60], "at": fi.loc(op.node), "why": "local guard at line %d" % ct[0].lineno})
                 continue
@@ -455,4 +459,6 @@ def run(ctx: Ctx, tier: str) -> Result:
     else:
         res.fail(Finding("C06.INDEP", "deep.processor.context.action_context.ActionContext", "<identity caches>", "src/deep/processor/context",
                          "frame variables, watches and captures of one action use different identity caches %s: references cannot resolve in the snapshot's table" % sorted(cache_texts)))
+    from .common import borrow
+    borrow(ctx, res, tier, "c20", ("C20.ISO",), "C06.ISOLATE", "the results of the tracepoints sharing an event are processed each in its own guard")
     return res
